@@ -57,6 +57,7 @@ def run(ctx):
     ctx.do(rule_no_upgrade)
     ctx.do(rule_flag_back)
     ctx.do(rule_built_elements_counted)
+    ctx.do(rule_reference_flag_knows_the_whitelist)
     ctx.do(rule_privileged_keys)
     ctx.do(rule_raw_passthrough)
     ctx.do(rule_extra_props)
@@ -320,6 +321,40 @@ def rule_explicit_false_kept(ctx):
                   expected="`%s is None` / `is not None`" % SWITCH, found=[short(u, 60) if isinstance(u, ast.AST) else str(u) for u in uses][:3])
     if n < 3:
         raise AnalysisError("fewer than 3 functions with a tri-state %s found (%d)" % (SWITCH, n))
+
+
+def rule_reference_flag_knows_the_whitelist(ctx):
+    """ReferenceProperty.clean weakens its type test when allow_custom is set (a whitelist of categories is inverted into a
+    blacklist of the other categories, so that unregistered custom types get through).  Whatever gets through ONLY thanks to
+    that weakening is refused by a strict re-parse, so it must raise the custom-content flag.  Necessary condition, decided
+    by def-use: when the cleaner has such an allow_custom-only relaxation, the flag it returns derives from the slot's own
+    whitelist (self.generics / self.specifics / self.auth_type) -- a flag computed from the type's registration alone cannot
+    agree with the strict test (marking-definition in sighting_of_ref: registered, in no category, admitted, flag false)."""
+    run = ctx.run
+    prog = ctx.prog
+    R = "C04.flag-back"
+    fi = prog.cls("stix2.properties::ReferenceProperty").methods.get("clean")
+    if fi is None:
+        raise AnalysisError("anchor missing: ReferenceProperty.clean")
+    relax = [x for x in body_walk(fi.node) if isinstance(x, ast.If) and SWITCH in [norm(c_) for c_ in conjuncts(x.test)]
+             and any(isinstance(a_, ast.Assign) for a_ in x.body)]
+    if not relax:
+        run.info(R, key(fi.module.relpath, fi.qualname, "flag-knows-the-whitelist"), "no allow_custom-only relaxation of the type test")
+        return
+    fl = flow_of(fi)
+    bad = []
+    for r in returns_of(fi):
+        if isinstance(r.value, ast.Tuple) and len(r.value.elts) == 2:
+            pr = fl.prov(r.value.elts[1])
+            if not ({"generics", "specifics", "auth_type"} & set(pr.selfattrs)):
+                bad.append("%s derives from %s" % (norm(r.value.elts[1]), sorted(pr.selfattrs) + sorted(pr.calls)))
+    run.check(not bad, R, key(fi.module.relpath, fi.qualname, "flag-knows-the-whitelist"),
+              "the type test is relaxed when allow_custom is set, but the custom-content flag does not depend on the slot's own "
+              "whitelist: a reference admitted only by the relaxation (a registered type of no category, e.g. marking-definition "
+              "in sighting_of_ref) reports has_custom False although a strict parse of the result is refused", file=fi.module.relpath,
+              line=relax[0].lineno, function=fi.qualname,
+              expected="has_custom true for what only the relaxed test admits (flag derived from self.generics / self.specifics)",
+              found=bad)
 
 
 _PLAIN_TYPES = ("dict", "str", "list", "tuple", "set", "bytes", "int", "float", "bool", "collections.abc.Mapping", "Mapping",
